@@ -37,9 +37,9 @@ EXTENDS PoolRunMC, IOUtils
 
 CONSTANTS Diag
 
-VARIABLES l, run, last, retLogged, fwdLogged, wdLogged, wdHooked
+VARIABLES l, run, last, retLogged, fwdLogged, wdLogged, wdHooked, engLogged
 
-aux == <<retLogged, fwdLogged, wdLogged, wdHooked>>
+aux == <<retLogged, fwdLogged, wdLogged, wdHooked, engLogged>>
 pos == <<run, last>>
 tvars == <<vars, l, pos, aux>>
 
@@ -61,6 +61,7 @@ TInit ==
     /\ fwdLogged = [p \in 1..Trace[s].n |-> FALSE]
     /\ wdLogged = [p \in 1..Trace[s].n |-> 0]
     /\ wdHooked = [p \in 1..Trace[s].n |-> Trace[s + p].flag]
+    /\ engLogged = FALSE
 
 Have(e) == l <= last /\ Ev.ev = e
 HaveP(e, p) == l <= last /\ Ev.ev = e /\ Ev.p = p
@@ -75,9 +76,12 @@ PRet(e) == IF e.cls = "err" THEN Ret("err", e.c) ELSE Ret(e.cls, "")
 (* ======================================================================= *)
 (* hook lines: the engine's own steps (as in TracePoolRun.tla)             *)
 (* ======================================================================= *)
+\* written by Run's deferred function: after the loop decided the result (a silent EngRecv / EngCancel; only a run
+\* that has an EngineReturn line is an Engine.Run call), before the deferred cancel()
 TEngineReturn ==
-  /\ Have("EngineReturn") /\ (EngRecv \/ EngCancel) /\ engRet'.k # "none"
-  /\ Consume /\ UNCHANGED aux
+  /\ Have("EngineReturn") /\ engRet.k # "none" /\ ~engLogged
+  /\ engLogged' = TRUE
+  /\ Consume /\ UNCHANGED <<vars, retLogged, fwdLogged, wdLogged, wdHooked>>
 
 TPoolReturn ==
   /\ Have("PoolReturn") /\ ~retLogged[Ev.p]
@@ -87,12 +91,12 @@ TPoolReturn ==
      \/ \* Run received the error and logged its return before the await goroutine logged ErrForwarded
         /\ poolPc[Ev.p] = "select" /\ aw[Ev.p].pc = "onerr" /\ Ev.cls = "err" /\ aw[Ev.p].pend = Ev.c
         /\ ForwardErr(Ev.p)
-  /\ Consume /\ UNCHANGED <<fwdLogged, wdLogged, wdHooked>>
+  /\ Consume /\ UNCHANGED <<fwdLogged, wdLogged, wdHooked, engLogged>>
 
 TWaitDone ==
   /\ Have("WaitDone") /\ wdHooked[Ev.p] /\ wdLogged[Ev.p] < wdCount[Ev.p]
   /\ wdLogged' = [wdLogged EXCEPT ![Ev.p] = @ + 1]
-  /\ Consume /\ UNCHANGED <<vars, retLogged, fwdLogged, wdHooked>>
+  /\ Consume /\ UNCHANGED <<vars, retLogged, fwdLogged, wdHooked, engLogged>>
 
 TAwaitProvider == Have("AwaitProvider") /\ provCh[Ev.p] = Ev.cls /\ AwaitProvider(Ev.p) /\ Consume /\ UNCHANGED aux
 TAwaitAggregator == Have("AwaitAggregator") /\ aggCh[Ev.p] = Ev.cls /\ AwaitAggregator(Ev.p) /\ Consume /\ UNCHANGED aux
@@ -106,7 +110,7 @@ TErrForwarded ==
   /\ fwdLogged' = [fwdLogged EXCEPT ![Ev.p] = TRUE]
   /\ \/ fwd[Ev.p] = "none" /\ aw[Ev.p].pend = Ev.cls /\ ForwardErr(Ev.p)
      \/ fwd[Ev.p] = Ev.cls /\ UNCHANGED vars
-  /\ Consume /\ UNCHANGED <<retLogged, wdLogged, wdHooked>>
+  /\ Consume /\ UNCHANGED <<retLogged, wdLogged, wdHooked, engLogged>>
 
 TErrSuppressed == Have("ErrSuppressed") /\ aw[Ev.p].pend = Ev.cls /\ SuppressErr(Ev.p) /\ Consume /\ UNCHANGED aux
 
@@ -231,8 +235,9 @@ Urgent ==
      \/ \E i \in Insts : GInstEnd(p, i)
 
 Relaxed ==
-  \/ EngRecv /\ engRet'.k = "none"
-  \/ EngDefer \/ UserCancel \/ UserCancelDo
+  \/ EngRecv /\ (engRet'.k = "none" \/ Later(0, "EngineReturn") # {})
+  \/ EngCancel /\ Later(0, "EngineReturn") # {}
+  \/ (engLogged /\ EngDefer) \/ UserCancel \/ UserCancelDo
   \/ \E p \in Pools : GPoolSelect(p) \/ PoolReportSend(p) \/ PoolReportSuppress(p) \/ GCtxProp(p) \/ GSchedEnd(p)
 
 TSilent ==
